@@ -92,10 +92,23 @@ impl Hist {
         let client = TestClient::new();
         let log = TestLog::new(tlen, mtu, init, n0, off0, SESSION, STREAM);
         let limit = UnsafeBufferPosition::new(client.counter_values_buffer(), 1);
+        // The position object handed to the publication: in every other geometry it is one that was first bound to another
+        // counter (id 5, holding a decoy limit that would admit everything) and then re-bound with `wrap` to the limit counter -
+        // after a re-bind the publication must read the limit counter's slot and nothing else.
+        let plimit = if (init as i64 + n0 as i64 + (off0 / 32) as i64) % 2 == 0 {
+            let decoy = UnsafeBufferPosition::new(client.counter_values_buffer(), 5);
+            decoy.set(i64::MAX);
+            let mut p = decoy.clone();
+            p.wrap(&limit);
+            assert_eq!(p.id(), 1, "wrap must take over the id of the position it is bound to");
+            p
+        } else {
+            limit.clone()
+        };
         let chan = CString::new("aeron:ipc").unwrap();
         let p = match kind {
-            "s" => Pubn::S(Publication::new(client.conductor.clone(), chan, 7, 7, STREAM, SESSION, limit.clone(), -1, log.log_buffers.clone())),
-            "x" => Pubn::X(ExclusivePublication::new(client.conductor.clone(), chan, 7, STREAM, SESSION, limit.clone(), -1, log.log_buffers.clone())),
+            "s" => Pubn::S(Publication::new(client.conductor.clone(), chan, 7, 7, STREAM, SESSION, plimit, -1, log.log_buffers.clone())),
+            "x" => Pubn::X(ExclusivePublication::new(client.conductor.clone(), chan, 7, STREAM, SESSION, plimit, -1, log.log_buffers.clone())),
             other => panic!("unknown case kind {}", other),
         };
         let prev = [vec![0u8; tlen as usize], vec![0u8; tlen as usize], vec![0u8; tlen as usize]];
